@@ -35,9 +35,11 @@ def all_names(jp):
     return seen
 
 
-def build_election(case, profile):
-    """Construct the election object (runs it)."""
-    from votekit import elections as E
+DOC_DEFAULTS = {"m": 1, "quota": "droop", "simultaneous": True, "tiebreak": None, "L": 1, "m_1": 2, "m_2": 1}
+
+
+def election_call(case):
+    """(class name, keyword arguments) for the case; every argument spelled out."""
     from votekit.elections import fractional_transfer, random_transfer
     rule, cfg = case["rule"], case.get("cfg", {})
     tb = cfg.get("tiebreak")
@@ -48,56 +50,85 @@ def build_election(case, profile):
         if tb is not None:
             kw["tiebreak"] = tb
         if rule == "IRV":
-            return E.IRV(profile, **kw)
+            return "IRV", kw
         if "simultaneous" in cfg:
             kw["simultaneous"] = cfg["simultaneous"]
         if rule == "SequentialRCV":
-            return E.SequentialRCV(profile, m=cfg["m"], **kw)
+            return "SequentialRCV", dict(kw, m=cfg["m"])
         if cfg.get("transfer") == "random":
             kw["transfer"] = random_transfer
         elif cfg.get("transfer") == "fractional_explicit":
             kw["transfer"] = fractional_transfer
         if rule == "Alaska":
-            return E.Alaska(profile, m_1=cfg["m_1"], m_2=cfg["m_2"], **kw)
-        return E.STV(profile, m=cfg["m"], **kw)
+            return "Alaska", dict(kw, m_1=cfg["m_1"], m_2=cfg["m_2"])
+        return "STV", dict(kw, m=cfg["m"])
     if rule in ("Plurality", "SNTV"):
-        return getattr(E, rule)(profile, m=cfg["m"], tiebreak=tb)
+        return rule, {"m": cfg["m"], "tiebreak": tb}
     if rule == "Borda":
-        kw = {}
+        kw = {"m": cfg["m"], "tiebreak": tb}
         if cfg.get("score_vector") is not None:
             kw["score_vector"] = [common.frac(x) for x in cfg["score_vector"]]
-        return E.Borda(profile, m=cfg["m"], tiebreak=tb, **kw)
+        return "Borda", kw
     if rule == "TopTwo":
-        return E.TopTwo(profile, tiebreak=tb)
+        return "TopTwo", {"tiebreak": tb}
     if rule == "DominatingSets":
-        return E.DominatingSets(profile)
+        return "DominatingSets", {}
     if rule == "CondoBorda":
-        return E.CondoBorda(profile, m=cfg["m"])
+        return "CondoBorda", {"m": cfg["m"]}
     if rule in ("RandomDictator", "BoostedRandomDictator"):
-        return getattr(E, rule)(profile, m=cfg["m"])
+        return rule, {"m": cfg["m"]}
     if rule == "PluralityVeto":
-        return E.PluralityVeto(profile, m=cfg["m"], tiebreak=tb)
+        return "PluralityVeto", {"m": cfg["m"], "tiebreak": tb}
     if rule == "GeneralRating":
-        kw = {}
+        kw = {"m": cfg["m"], "tiebreak": tb}
         if "L" in cfg:
             kw["L"] = common.frac(cfg["L"])
         if cfg.get("k") is not None:
             kw["k"] = common.frac(cfg["k"])
-        return E.GeneralRating(profile, m=cfg["m"], tiebreak=tb, **kw)
+        return "GeneralRating", kw
     if rule == "Rating":
-        return E.Rating(profile, m=cfg["m"], L=common.frac(cfg.get("L", 1)), tiebreak=tb)
+        return "Rating", {"m": cfg["m"], "L": common.frac(cfg.get("L", 1)), "tiebreak": tb}
     if rule == "Limited":
-        return E.Limited(profile, m=cfg["m"], k=common.frac(cfg.get("k", 1)), tiebreak=tb)
+        return "Limited", {"m": cfg["m"], "k": common.frac(cfg.get("k", 1)), "tiebreak": tb}
     if rule == "Cumulative":
-        return E.Cumulative(profile, m=cfg["m"], tiebreak=tb)
+        return "Cumulative", {"m": cfg["m"], "tiebreak": tb}
     if rule == "Approval":
-        return E.Approval(profile, m=cfg["m"], tiebreak=tb)
+        return "Approval", {"m": cfg["m"], "tiebreak": tb}
     if rule == "BlocPlurality":
-        kw = {}
+        kw = {"m": cfg["m"], "tiebreak": tb}
         if cfg.get("k") is not None:
             kw["k"] = cfg["k"]
-        return E.BlocPlurality(profile, m=cfg["m"], tiebreak=tb, **kw)
+        return "BlocPlurality", kw
     raise ValueError("unknown rule " + rule)
+
+
+def call_style(case):
+    """How the constructor is called, derived from the case's seed so that every property sees the same
+    style for the same case: 0 every argument by keyword, 1 arguments equal to the DOCUMENTED default
+    left out, 2 the seat count(s) passed positionally, 3 both."""
+    return case.get("call_style", (case.get("seed", 0) // 7) % 4)
+
+
+def build_election(case, profile):
+    """Construct the election object (runs it)."""
+    from votekit import elections as E
+    name, kw = election_call(case)
+    style = call_style(case)
+    args = [profile]
+    if style in (1, 3):
+        keep_m = name in ("RandomDictator", "BoostedRandomDictator", "PluralityVeto")    # m has no default there
+        kept = dict(kw)
+        kw = {k: v for k, v in kept.items()
+              if not (k in DOC_DEFAULTS and type(v) is type(DOC_DEFAULTS[k]) and v == DOC_DEFAULTS[k])
+              and not (k == "tiebreak" and v is None) and not (k == "L" and v == 1)}
+        if keep_m and "m" in kept:
+            kw["m"] = kept["m"]
+    if style in (2, 3):
+        if name == "Alaska" and "m_1" in kw and "m_2" in kw:
+            args += [kw.pop("m_1"), kw.pop("m_2")]
+        elif "m" in kw and name not in ("IRV", "TopTwo", "DominatingSets"):
+            args.append(kw.pop("m"))
+    return getattr(E, name)(*args, **kw)
 
 
 def script_from_log(nm: Names, log, order=None):
